@@ -155,6 +155,9 @@ func c01(run *ev.Run) int {
 		cfg := fmt.Sprintf("%s/h2=%v/%s/%s/%s", v.name, j.http2, j.proto, j.codec, j.kind)
 		r := run.Rand("c01/" + cfg)
 		for si, spec := range seqs {
+			if run.Saturated() {
+				return
+			}
 			if j.codec == "json" && len(spec) > 0 && len(spec[0]) > 6 {
 				// multi-MiB payloads as base64 JSON: keep to the proto codec
 				continue
@@ -240,10 +243,12 @@ func c01Call(run *ev.Run, srv *svc.Server, cs *svc.ClientSet, kind svc.Kind, key
 		run.Violation(key+"/hang", "call did not return within the 90 s watchdog", trunc(dump, 20000))
 		return
 	}
-	select {
-	case <-call.Log.Finished:
-	case <-time.After(30 * time.Second):
-		run.Violation(key+"/handler-hang", "handler did not finish within 30 s after the client call returned", nil)
+	if fin, inv := waitHandler(call, 30*time.Second); !fin {
+		if inv {
+			run.Violation(key+"/handler-hang", "handler did not finish within 30 s after the client call returned", nil)
+		} else {
+			run.Violation(key+"/not-served", "the handler was never invoked for a fault-free call; client error: "+errStr(cl.Err), map[string]any{"config": cfg, "sequence": spec, "client_err": errStr(cl.Err)})
+		}
 		return
 	}
 	hl := call.Log
